@@ -11,7 +11,7 @@
      cuts P inp cs               inp = piece_1 ++ piece_2 ++ ..., |piece_i| = |chunk_i|, and P piece_i rest_i chunk_i
                                  holds for every chunk returned with err == nil (every non-final chunk) *)
 From Coq Require Import List NArith ZArith Bool.
-From Verif Require Import Common.GoStr C26.Model C26.Spec C26.Proof C26.Proof2 C26.Proof3 C26.Proof4.
+From Verif Require Import Common.GoStr C26.Model C26.Spec C26.Spec2 C26.Proof C26.Proof2 C26.Proof3 C26.Proof4 C26.Proof5 C26.Proof6.
 Import ListNotations.
 Open Scope Z_scope.
 
@@ -127,7 +127,9 @@ Print Assumptions C26_continuation_negative_depth_refuted.
 
 (* keyword rule, PARTIAL: proved = wherever a chunk was cut, lastIsKeywordIgnoresNl (called with the whole
    buffer and buffer-relative offsets, fix C26-1) had answered false.  Missing = that the two offsets are those
-   of the first and last token of the chunk (checked by the correspondence on firstToken and by oracle O5). *)
+   of the first and last token of the chunk (checked by the correspondence on firstToken and by oracle O5).
+   SUPERSEDED: the full theorem C26_keyword_continuation below derives the offsets from an invariant of
+   foundtoken proved by induction over the byte steps; this one is kept unchanged. *)
 Theorem C26_keyword_continuation_partial : forall inp allc v1 cs st,
   bare_hash RCode inp = false -> read_stream allc v1 (split_nl inp) = (cs, st) ->
   cuts (fun _ _ c => exists first last, (0 <=? first) && lastIsKw v1 (c_src c) first last = false) inp cs.
@@ -142,6 +144,96 @@ Theorem C26_keyword_index_old_call_refuted :
   lastIsKw false lastline 5 14 = false /\ lastIsKw false buf 5 14 = true.
 Proof. vm_compute. split; reflexivity. Qed.
 Print Assumptions C26_keyword_index_old_call_refuted.
+
+(* ---- keyword rule, FULL ---- *)
+(* the keyword test of lastIsKeywordIgnoresNl: etoken.Lookup(w) is a keyword other than break / continue /
+   fallthrough / return  <->  w is in the list (is_kw, Spec2.v: the 21 other Go keywords, "macro", and "template"
+   when etoken.GENERICS == GENERICS_V1_CXX) *)
+Theorem C26_keyword_lookup : forall v1 w, kw_ignores_nl v1 w = true <-> is_kw v1 w.
+Proof. exact kw_lookup_spec. Qed.
+Print Assumptions C26_keyword_lookup.
+
+Theorem C26_keyword_lookup_list : forall w, kw_ignores_nl false w = true <-> In w kw_list.
+Proof. exact kw_lookup_list. Qed.
+Print Assumptions C26_keyword_lookup_list.
+
+(* the bookkeeping of foundtoken, one byte: firstToken stays below the offset of the next byte (so it is -1 or the
+   offset of a byte already read), and a lower-case letter met in code (mode mNormal / mPlus / mMinus / mSlash)
+   leaves mode mNormal, lastToken = its offset, 0 <= firstToken <= its offset, firstToken unchanged once set *)
+Theorem C26_token_offsets_byte : forall s p c, s_first s < p -> s_first (fst (step s p c)) < p + 1.
+Proof. exact step_first_lt. Qed.
+Print Assumptions C26_token_offsets_byte.
+
+Theorem C26_token_offsets_letter : forall s p,
+  code_mode (s_m s) -> 0 <= p -> s_first s < p ->
+  let s' := fst (step s p COther) in
+  snd (step s p COther) = false /\ s_m s' = mNormal /\ s_last s' = p /\
+  0 <= s_first s' <= p /\ (0 <= s_first s -> s_first s' = s_first s).
+Proof. exact step_lower. Qed.
+Print Assumptions C26_token_offsets_letter.
+
+(* ... white space and comments move neither offset *)
+Theorem C26_token_offsets_quiet : forall s p c r nx,
+  R (s_m s) r (Some c) -> hash_fine r c nx -> (s_m s = mSlash -> r <> RCode) ->
+  quiet1 r c (rstep r c nx) = true ->
+  let s' := fst (step s p c) in
+  s_first s' = s_first s /\ s_last s' = s_last s /\ (s_m s' = mSlash -> rstep r c nx <> RCode).
+Proof. exact quiet_step_tok. Qed.
+Print Assumptions C26_token_offsets_quiet.
+
+(* one line, anywhere in a stream, NO premise on what firstToken / lastToken are beyond the invariant Tok
+   (firstToken < len(buf), buf empty or ending in a newline - established for every line of every chunk by
+   rm_loop_tok): if the last token of the line outside literals and comments is a continuation keyword
+   (ends_in_kw, Spec2.v; at any bracket depth) then lastIsKeywordIgnoresNl, called as the code calls it on the
+   whole buffer with the offsets the machine has computed, answers true *)
+Theorem C26_keyword_continuation_line : forall L rest s bufL r d s1 acc1 v1,
+  line_ok L -> R (s_m s) r (peek (L ++ rest)) -> s_m s <> mHash -> s_paren s = d ->
+  bare_hash r (L ++ rest) = false -> Tok s bufL ->
+  ends_in_kw v1 r d L (peek rest) ->
+  run_line s (Z.of_nat (length bufL)) [] L = Some (s1, acc1) ->
+  (0 <=? s_first s1) && lastIsKw v1 (bufL ++ rev acc1) (s_first s1) (s_last s1) = true.
+Proof. exact line_kw. Qed.
+Print Assumptions C26_keyword_continuation_line.
+
+(* whole stream, every byte sequence: every non-final chunk is a sequence of complete lines and the last token
+   (outside literals and comments) of its last line is not a continuation keyword *)
+Theorem C26_keyword_continuation : forall inp allc v1 cs st,
+  bare_hash RCode inp = false -> read_stream allc v1 (split_nl inp) = (cs, st) ->
+  cuts (fun piece rest _ =>
+          exists lines L, piece = concat lines ++ L /\ Forall line_ok lines /\ line_ok L /\
+            let '(r, d) := rrun RCode 0 (concat lines) (peek (L ++ rest)) in ~ ends_in_kw v1 r d L (peek rest)) inp cs.
+Proof. exact keyword_continuation. Qed.
+Print Assumptions C26_keyword_continuation.
+
+(* ---- runs of + and - (covers "<-+", "+-", "++-" ... that ends_in_op leaves out) ---- *)
+(* ends_in_pm_run r d L after (Spec2.v): L = a ++ run ++ t, run a block of + / - bytes met in code at bracket
+   depth 0, not preceded by + or -, whose greedy reading (++ and -- pair up, as in go/scanner) leaves a single
+   + or - at the end, t only white space and comments *)
+Theorem C26_continuation_kept_arrow_line : forall L rest s p r d s1 acc1 o,
+  line_ok L -> R (s_m s) r (peek (L ++ rest)) -> s_m s <> mHash -> s_m s <> mPlus -> s_m s <> mMinus ->
+  s_paren s = d -> bare_hash r (L ++ rest) = false ->
+  ends_in_pm_run r d L (peek rest) ->
+  run_line s p [] L = Some (s1, acc1) ->
+  s_ign s1 = true /\ may_stop o (eol_reset_comment s1) = false.
+Proof. exact line_pm_ign. Qed.
+Print Assumptions C26_continuation_kept_arrow_line.
+
+Theorem C26_continuation_kept_arrow : forall inp allc v1 cs st,
+  bare_hash RCode inp = false -> read_stream allc v1 (split_nl inp) = (cs, st) ->
+  cuts (fun piece rest _ =>
+          exists lines L, piece = concat lines ++ L /\ Forall line_ok lines /\ line_ok L /\
+            let '(r, d) := rrun RCode 0 (concat lines) (peek (L ++ rest)) in ~ ends_in_pm_run r d L (peek rest)) inp cs.
+Proof. exact continuation_kept_pm. Qed.
+Print Assumptions C26_continuation_kept_arrow.
+
+(* what the rule cannot cover: Go reads "c <--" as  c  <-  -  (the first '-' belongs to the arrow), the
+   statement goes on; the reader pairs the two '-' to a complete "--" and cuts "c <--<NL>1<NL>" after the first
+   line (replayed on the real reader: corpus/C26/known-arrow-minus.txt) *)
+Theorem C26_arrow_minus_cut_refuted :
+  map (fun c => (length (c_src c), c_err c)) (fst (read_stream false false (split_nl [99; 32; 60; 45; 45; 10; 49; 10]%N)))
+  = [(6%nat, ENone); (2%nat, ENone)].
+Proof. exact arrow_minus_cut. Qed.
+Print Assumptions C26_arrow_minus_cut_refuted.
 
 (* ---- the hypotheses are satisfiable on non-trivial values ---- *)
 (* x := `a<NL>b` + 1<NL>/* c */ y()<NL> : two chunks, the first spans the raw string *)
@@ -167,3 +259,24 @@ Example C26_ex_keywords :
   forallb (fun w => lastIsKw false ([120; 59; 32]%N ++ w ++ [32; 10]%N) 0 (Z.of_nat (length w) + 2)) kw_list = true
   /\ lastIsKw false [120;32;114;101;116;117;114;110;10]%N 0 7 = false.
 Proof. vm_compute. split; reflexivity. Qed.
+
+(* ends_in_kw is satisfiable: "} else //c<NL>" (keyword at bracket depth -1, then a comment), and the reader keeps
+   "if x {<NL>} else //c<NL>{ }<NL>" in one chunk *)
+Example C26_ex_ends_in_kw : ends_in_kw false RCode 0 [125;32;101;108;115;101;32;47;47;99;10]%N None.
+Proof.
+  exists [125;32]%N, [101;108;115;101]%N, [32;47;47;99;10]%N.
+  split; [reflexivity|]. split; [exists (-1); vm_compute; reflexivity|].
+  split; [left; apply kw_lookup_list; vm_compute; reflexivity|]. split; vm_compute; reflexivity.
+Qed.
+Example C26_ex_else_one_chunk :
+  map (fun c => length (c_src c)) (fst (read_stream true false (split_nl
+     [105;102;32;120;32;123;10;125;32;101;108;115;101;32;47;47;99;10;123;32;125;10]%N))) = [22%nat].
+Proof. vm_compute. reflexivity. Qed.
+
+(* ends_in_pm_run is satisfiable: "c <-+<NL>" *)
+Example C26_ex_ends_in_pm_run : ends_in_pm_run RCode 0 [99;32;60;45;43;10]%N None.
+Proof.
+  exists [99;32;60]%N, [45;43]%N, [10]%N.
+  split; [reflexivity|]. split; [vm_compute; reflexivity|]. split; [discriminate|].
+  split; [repeat constructor|]. split; [vm_compute; reflexivity|]. split; [vm_compute; discriminate|vm_compute; reflexivity].
+Qed.
